@@ -41,7 +41,17 @@ ASSUMPTIONS = ["tolerances assume coordinates and their differences are rounded 
 EPS = geom.EPS32
 
 
+# thorough tier: every 10-th case also runs in a worker whose extensions are ASan/UBSan-instrumented (vlib/sanitize.py)
+ASAN_EVERY = {"quick": 0, "thorough": 10}
+GROUPS = {"thorough": [dict(name="asan", flavour="asan", workers=2)]}
+
+
 def gen_cases(tier, seed):
+    from vlib.gen import common as _common
+    return _common.with_asan_slice(_gen_cases(tier, seed), ASAN_EVERY[tier])
+
+
+def _gen_cases(tier, seed):
     n = 260 if tier == "quick" else 9000
     for i in range(n):
         rng = common.rng_for("C09", seed, i)
